@@ -524,6 +524,14 @@ def run(rep, ctx):
     bad = [(a, b) for a, b in rng if (a, b) not in {(l, h) for _, l, h in RANGES}]
     t2.check(not bad, "no-undocumented-range-rows", "src/solver.cc",
              "range rows not among the documented ranges: %s" % bad)
+    # ---- E1: results that arrive by exception keep their code (the clause of C09.P2, which reads the same handler) ---------
+    e1 = rep.rule("C10.E1", "RANGE", "a coded mp::Error caught by BackendApp::Run is reported with its own solve result (a negative code becomes a failure code)", floor=1)
+    from .C09 import run_error_codes as _rec
+    Fr = Facts(export_many([dict(unit="solvers/visitor/main.cc", fn=[r"mp::BackendApp::Run"], repo=repo)]))
+    runs = [g for g in Fr.funcs if g.qn == "mp::BackendApp::Run" and not g.is_dependent() and g.cfg is not None]
+    if not runs:
+        raise AnalysisBroken("C10.E1: BackendApp::Run not found")
+    _rec(e1, Fr, runs[0])
     return rep
 
 
